@@ -337,6 +337,15 @@ func updateReferences(st storage.Storer, req *packp.UpdateRequests, cmdStatus ma
 			continue
 		}
 
+		// A reference must never point to an object the repository does not
+		// have (neither stored before nor received with this push).
+		if cmd.Action() != packp.Delete {
+			if err := st.HasEncodedObject(cmd.New); err != nil {
+				setStatus(cmdStatus, firstErr, cmd.Name, err)
+				continue
+			}
+		}
+
 		switch cmd.Action() {
 		case packp.Create:
 			if exists {
